@@ -321,7 +321,8 @@ def defexpand_case(draw):
         children = [dict(c, g=permute(c["g"])) if gen_hed.is_group(c) else c for c in children]
         return list(draw(st.permutations(children)))
     content = permute(content)
-    mode = draw(st.sampled_from(["true", "true", "extra", "removed", "changed_value", "swapped_tag"]))
+    mode = draw(st.sampled_from(["true", "true", "extra", "removed", "changed_value", "swapped_tag",
+                                 "second_group", "sibling_tag", "content_twice", "no_content"]))
     plain = [n for n in pl.plain if n.long not in used]
     if mode == "extra":
         content.insert(draw(st.integers(0, len(content))), gen_hed.make_tag(plain[0].short, "x"))
@@ -343,6 +344,14 @@ def defexpand_case(draw):
         else:
             mode = "true"
     members = [gen_hed.make_tag(f"Def-expand/{ref}", "de"), gen_hed.make_group(content)]
+    if mode == "second_group":
+        members.append(gen_hed.make_group([gen_hed.make_tag(plain[2].short, "x")]))
+    elif mode == "sibling_tag":
+        members.append(gen_hed.make_tag(plain[2].short, "x"))
+    elif mode == "content_twice":
+        members.append(gen_hed.make_group(copy.deepcopy(content)))
+    elif mode == "no_content":
+        members = members[:1]
     members = list(draw(st.permutations(members)))
     outer = draw(gen_hed.subtree(VERSION, used, 1, False, False, 0, 2))
     outer.insert(draw(st.integers(0, len(outer))), gen_hed.make_group(members))
